@@ -29,7 +29,7 @@ def WF : Expr → Prop
   | .str _ => True
   | .backtick _ => True
   | .var n => okName n
-  | .call f args => okName f ∧ WFs args
+  | .call f args => okName f ∧ fnOk f args.length = true ∧ WFs args
   | .concat l r => level l = 0 ∧ level r ≤ 1 ∧ WF l ∧ WF r
   | .joinL l r => level l = 0 ∧ level r ≤ 1 ∧ WF l ∧ WF r
   | .joinR r => level r ≤ 1 ∧ WF r
@@ -388,7 +388,7 @@ theorem parseValue_assert_ok {f : Nat} {r1 r3 r5 : List Tk} {a b m : Expr} {o : 
   simp [parseValue, h1, h2]
 
 theorem parseValue_call_ok {f : Nat} {n : String} {r r' : List Tk} {args : Exprs} (hn : n ≠ "assert")
-    (h : parseSequence f r = some (args, r')) :
+    (hfn : fnOk n args.length = true) (h : parseSequence f r = some (args, r')) :
     parseValue (f + 1) (.ident n :: .lparen :: r) = some (.call n args, r') := by
   unfold parseValue
   split <;> try (simp_all; done)
